@@ -219,6 +219,15 @@ def r09_2(ctx, repo):
         if isinstance(v, ast.Call) and U(v.func) in (
                 'np.array', 'np.asarray', 'list') and v.args:
             return kind_of(v.args[0])
+        if isinstance(v, ast.ListComp) and len(v.generators) == 1 \
+                and isinstance(v.elt, ast.Call) and isinstance(
+                    v.elt.func, ast.Attribute) and v.elt.func.attr == \
+                'index' and len(v.elt.args) == 1 and U(
+                    v.elt.args[0]) == U(v.generators[0].target) \
+                and kind_of(v.generators[0].iter) == 'NAMES' \
+                and kind_of(v.elt.func.value) == 'SORTED_NAMES':
+            # rank of every declared name in the published (sorted) list
+            return 'INV'
         if isinstance(v, ast.Call) and U(v.func) in ('sorted', 'np.sort') \
                 and v.args and kind_of(v.args[0]) == 'NAMES':
             extra = [k for k in v.keywords if k.arg in ('key', 'reverse')
@@ -630,7 +639,16 @@ def r09_6(ctx, repo):
             for c in ast.walk(fn):
                 if isinstance(c, ast.Compare) and len(c.ops) == 1 and \
                         isinstance(c.ops[0], (ast.In, ast.NotIn)):
-                    cont = U(c.comparators[0])
+                    ce = c.comparators[0]
+                    if isinstance(ce, ast.Name):
+                        # a local bound once to the table that is consulted
+                        d = [a for a in ast.walk(fn)
+                             if isinstance(a, ast.Assign)
+                             and len(a.targets) == 1
+                             and U(a.targets[0]) == ce.id]
+                        if len(d) == 1:
+                            ce = d[0].value
+                    cont = U(ce)
                     if 'self.' in cont:
                         tests.append((c, cont))
             for c, cont in tests:
